@@ -24,6 +24,12 @@ CYCLE_ITEMS = ["w", "{{{1}}}", "{{{1|{{A}}}}}", "{{A}}", "{{B}}", "{{C}}", "{{A|
 # calls routed through the branches of every conditional parser function (fan-out 2), and an argument that doubles per level
 CYCLE_ITEMS_X = CYCLE_ITEMS + ["{{#ifexpr:1|{{A}}{{A}}}}", "{{#ifexpr:0|x|{{A}}{{B}}}}", "{{#ifeq:a|a|{{A}}{{A}}}}", "{{#switch:a|a={{A}}{{A}}}}",
                                "{{#iferror:{{A}}|{{A}}|{{A}}{{B}}}}", "{{#if:x|{{A}}{{A}}}}", "{{A|{{{1}}}{{{1}}}}}", "{{#ifexist:A|{{A}}{{A}}}}"]
+NEST_OPENERS = [("{{lc:", "}}"), ("{{a|", "}}"), ("{{{", "}}}"), ("{{{1|", "}}}"), ("{{#if:", "}}"), ("{{#if:x|", "}}"), ("{{#expr:", "}}"), ("{{a|1=", "}}"),
+                ("{{#switch:", "}}"), ("{{#ifeq:a|a|", "}}"), ("{{T|", "}}"), ("{{", "}}"), ("[[", "]]"), ("<noinclude>", "</noinclude>"),
+                ("{{#tag:ref|", "}}"), ("{{#iferror:", "}}")]
+NEST_DEPTHS = [5, 40, 150, 400, 1500, 5000]
+EXPR_OPERANDS = ["2", "7", "400", "1e400", "999999999", "0.5", "-1"]
+EXPR_OPS = ["^", "*", "e", "+", "mod", "round", "/"]
 LANGS = ["en", "de", "es", "fr", "it", "ja", "nl", "no", "pl", "pt", "simple", "sv"]
 
 
@@ -111,6 +117,17 @@ class C03(InputProp):
             fams.append(Product(bodies, bodies, ["{{A}}", "{{A|x}}", "{{B|{{A}}}}"], name="cycles2"))
             fams.append(Product(small, one, one, ["{{A}}", "{{C|x}}"], name="cycles3"))
             fams.append(Seqs(SIGMA_T, 5, name="syntax"))
+        # fan-out through every function: A = {{f<sep>...{{A}}...}} twice, page {{A}} - the recursion limit must bound the work whichever
+        # function (and whichever argument position, colon or pipe form) the recursive calls are routed through
+        fams.append(Product(names, ["colon", "pipe"], [0, 1, 2], name="fanout"))
+        # nesting depth: every opener of the template language nested n times (closed and left open)
+        fams.append(Product(NEST_OPENERS, NEST_DEPTHS if tier != "quick" else NEST_DEPTHS[:4], ["closed", "open"], name="nest"))
+        # operator chains of #expr / #ifexpr over operands chosen to grow (a chain is what multiplies, one operand never does)
+        chain = 2 if tier == "quick" else 3
+        fams.append(Product(EXPR_OPERANDS, Seqs([(o, x) for o in EXPR_OPS for x in EXPR_OPERANDS], chain, minlen=1), ["#expr", "#ifexpr"], name="exprchain"))
+        if tier == "quick":
+            grow = [(o, x) for o in ("^", "e", "*") for x in ("400", "1e400", "7")]
+            fams.append(Product(["7", "1e400"], Seqs(grow, 4, minlen=3), ["#expr"], name="exprchain"))
         self.space = Concat(*fams)
         self.dbs = {}
 
@@ -140,6 +157,18 @@ class C03(InputProp):
             return page, self.db("en", pages), sum(map(len, pages.values()))
         if fam == "syntax":
             return "".join(c), self.db("en"), 20
+        if fam == "fanout":
+            name, form, pos = c
+            args = ["x"] * pos + ["{{A}}"]
+            body = self.call(name, args, form) * 2
+            return "{{A}}b", self.db("en", {"A": body}), len(body)
+        if fam == "nest":
+            (o, cl), n, closed = c
+            return o * n + "x" + (cl * n if closed == "closed" else ""), self.db("en"), 0
+        if fam == "exprchain":
+            first, rest, fn = c
+            e = first + "".join(" %s %s" % (o, x) for o, x in rest)
+            return ("{{#expr:%s}}" % e) if fn == "#expr" else ("{{#ifexpr:%s|y|n}}" % e), self.db("en"), 0
         raise ValueError(fam)
 
     @staticmethod
